@@ -22,9 +22,9 @@ RULES = [
     # ---------------- guarded SAFE -------------------------------------------------------------
     (r"deserialize_env::DeserializeEnv::<L>::(with_utils|parse_global_utils)$", r"expect", None, "SAFE", "ids iterate the order returned by TopologicalSort::get_order over the same map", {"guard": "ids_from_get_order"}),
     (r"transformation::Replace::<.*>::compute$", r"call:core::result::Result::<T, E>::unwrap", None, "SAFE", "the regex was compiled successfully by Transformation::parse when the rule was loaded (error returned there)", {"guard": "regex_validated_at_load"}),
-    (r"transform::rewrite::Rewrite::<.*>::compute$", r"index", r"get_nodes_from_env", "SAFE", "after the `nodes.is_empty()` early return", {"guard": "multi_nodes_nonempty"}),
-    (r"transform::rewrite::Rewrite::<.*>::compute$", r"assert:overflow_Sub", None, "SAFE", "edits before `start` are dropped by skip_while(position < start); the remaining positions are >= start", {"guard": "rewrite_edits_filtered"}),
-    (r"transform::rewrite::(Rewrite::<.*>::compute|make_edit)$", r"assert:overflow_Add", None, "SAFE", "sums of offsets inside one source text"),
+    (r"transform::rewrite::Rewrite::<.*>::compute(_in)?$", r"index", r"get_nodes_from_env", "SAFE", "after the `nodes.is_empty()` early return", {"guard": "multi_nodes_nonempty"}),
+    (r"transform::rewrite::Rewrite::<.*>::compute(_in)?$", r"assert:overflow_Sub", None, "SAFE", "edits before `start` are dropped by skip_while(position < start); the remaining positions are >= start", {"guard": "rewrite_edits_filtered"}),
+    (r"transform::rewrite::(Rewrite::<.*>::compute(_in)?|make_edit)$", r"assert:overflow_Add", None, "SAFE", "sums of offsets inside one source text"),
     (r"transform::rewrite::make_edit$", r"index", None, "SAFE", "pos comes from checked_sub and pos + deleted_length <= len is tested before slicing; start <= pos by the overlap test", {"guard": "rewrite_edits_filtered"}),
     (r"nth_child::parse_an_b$", r"assert:overflow_Mul", r"-1_i32|1_i32", "SAFE", "sign is ±1 and 0 <= num <= i32::MAX (checked_mul/checked_add reject larger numbers)"),
     (r"nth_child::FunctionalPosition::is_matched$", r"assert:(overflow_(Add|Sub)|div_zero|rem_zero|overflow_Div|overflow_Rem)", None, "SAFE", "evaluated in i64 over values that fit in i33; the divisor is tested != 0 on this branch"),
